@@ -74,21 +74,7 @@ func runC05(r *Report) {
 			if p == nil {
 				return
 			}
-			ok := false
-			for _, ft := range Facts(in.Block()) {
-				bo, isB := ft.Cond.(*ssa.BinOp)
-				if !isB {
-					continue
-				}
-				_, yC := ConstInt(bo.Y)
-				_, xC := ConstInt(bo.X)
-				switch {
-				case yC && losslessFrom(bo.X, p) && ((bo.Op == token.GTR && !ft.Pol) || (bo.Op == token.GEQ && !ft.Pol) || (bo.Op == token.LEQ && ft.Pol) || (bo.Op == token.LSS && ft.Pol)):
-					ok = true
-				case xC && losslessFrom(bo.Y, p) && ((bo.Op == token.LSS && !ft.Pol) || (bo.Op == token.LEQ && !ft.Pol) || (bo.Op == token.GEQ && ft.Pol) || (bo.Op == token.GTR && ft.Pol)):
-					ok = true
-				}
-			}
+			ok := sizeBounded(r.P, in.Block(), size, 2)
 			r.Ob("R-C05-1", in.Pos(), ok, fmt.Sprintf("%s sized by wire-derived parameter %q must be dominated by an upper-bound comparison against a constant", what, p.Name()),
 				r.P.FuncName(g), "alloc-by:"+p.Name())
 		})
@@ -190,6 +176,13 @@ func runC05(r *Report) {
 			}
 			ok, why := readErrorLeavesLoop(ci)
 			r.Ob("R-C05-3", CallPos(ci), ok, "a failed read must leave the read loop: "+why, r.P.FuncName(g), "read-error-exits-loop")
+		}
+	}
+	for _, g := range reach {
+		for _, ci := range Calls(g, false, "io:ReadFull", "io:ReadAtLeast") {
+			if t, f, _, ok := FieldOf(Arg(ci, 0)); ok && t == "StreamProcessor" && f == "reader" {
+				r.Pass("R-C05-3", CallPos(ci), "the field is read by the library's full-read loop, which returns on the first error", r.P.FuncName(g), "read-error-exits-loop:full-read")
+			}
 		}
 	}
 	r.Floor("R-C05-3", 1, "read loops on the peer's reader")
@@ -704,6 +697,18 @@ func losslessFrom(v ssa.Value, p *ssa.Parameter) bool {
 		switch x := v.(type) {
 		case *ssa.ChangeType:
 			v = x.X
+		case *ssa.UnOp:
+			// load of a variable spilled to a cell because a closure captures it: lossless when the
+			// cell is written exactly once
+			al, isA := x.X.(*ssa.Alloc)
+			if x.Op != token.MUL || !isA {
+				return false
+			}
+			sts := storesTo(al)
+			if len(sts) != 1 || closureWrites(al) {
+				return false
+			}
+			v = sts[0].Val
 		case *ssa.Convert:
 			from, ok1 := x.X.Type().Underlying().(*types.Basic)
 			to, ok2 := x.Type().Underlying().(*types.Basic)
@@ -732,6 +737,98 @@ func losslessFrom(v ssa.Value, p *ssa.Parameter) bool {
 			v = x.X
 		default:
 			return false
+		}
+	}
+	return false
+}
+
+// staticCallSites lists the call instructions of the program whose static callee is f.
+func staticCallSites(p *Prog, f *ssa.Function) []*ssa.Call {
+	var out []*ssa.Call
+	for _, g := range p.Funcs {
+		Instrs(g, func(in ssa.Instruction) {
+			if c, ok := in.(*ssa.Call); ok && c.Common().StaticCallee() == f {
+				out = append(out, c)
+			}
+		})
+	}
+	return out
+}
+
+// sizeBounded: the wire-derived size is a constant, or compared against a constant upper bound on
+// every path to block at, or it is the parameter of an unexported helper every call site of which
+// passes a bounded size (a shared "allocate, read full, hand over" helper is bounded by its callers).
+func sizeBounded(pr *Prog, at *ssa.BasicBlock, size ssa.Value, depth int) bool {
+	if _, isC := ConstInt(size); isC {
+		return true
+	}
+	p := wireDerived(size)
+	if p == nil {
+		return true
+	}
+	for _, ft := range Facts(at) {
+		bo, isB := ft.Cond.(*ssa.BinOp)
+		if !isB {
+			continue
+		}
+		_, yC := ConstInt(bo.Y)
+		_, xC := ConstInt(bo.X)
+		switch {
+		case yC && losslessFrom(bo.X, p) && ((bo.Op == token.GTR && !ft.Pol) || (bo.Op == token.GEQ && !ft.Pol) || (bo.Op == token.LEQ && ft.Pol) || (bo.Op == token.LSS && ft.Pol)):
+			return true
+		case xC && losslessFrom(bo.Y, p) && ((bo.Op == token.LSS && !ft.Pol) || (bo.Op == token.LEQ && !ft.Pol) || (bo.Op == token.GEQ && ft.Pol) || (bo.Op == token.GTR && ft.Pol)):
+			return true
+		}
+	}
+	f := p.Parent()
+	if depth <= 0 || f == nil || f.Object() == nil || f.Object().Exported() || !losslessFrom(size, p) {
+		return false
+	}
+	idx := -1
+	for i, q := range f.Params {
+		if q == p {
+			idx = i
+		}
+	}
+	sites := staticCallSites(pr, f)
+	if idx < 0 || len(sites) == 0 {
+		return false
+	}
+	for _, c := range sites {
+		if idx >= len(c.Call.Args) || !sizeBounded(pr, c.Block(), c.Call.Args[idx], depth-1) {
+			return false
+		}
+	}
+	return true
+}
+
+// closureWrites: a closure that captures the cell stores to it.
+func closureWrites(al *ssa.Alloc) bool {
+	if al.Referrers() == nil {
+		return false
+	}
+	for _, ref := range *al.Referrers() {
+		mc, ok := ref.(*ssa.MakeClosure)
+		if !ok {
+			continue
+		}
+		fn, _ := mc.Fn.(*ssa.Function)
+		for i, b := range mc.Bindings {
+			if b != ssa.Value(al) || fn == nil || i >= len(fn.FreeVars) {
+				continue
+			}
+			fv := fn.FreeVars[i]
+			if fv.Referrers() == nil {
+				continue
+			}
+			for _, u := range *fv.Referrers() {
+				if st, ok := u.(*ssa.Store); ok && st.Addr == ssa.Value(fv) {
+					return true
+				}
+				if _, ok := u.(*ssa.MakeClosure); ok {
+					return true // handed further down: not followed
+				}
+			}
 		}
 	}
 	return false
